@@ -18,8 +18,8 @@ RULE = ('complete enumeration per logic of every node shape (operator | quantifi
         'pairs; all monadic valuations over the branch constants plus one unnamed element; all valuations over the '
         'worlds on the branch plus one unnamed world). Frame rules: every set of access pairs over <= 3 worlds, the '
         'frame rules run to completion, result compared with the required closure. One obligation = (logic, shape, '
-        'context); each is distinct and non-trivial. thorough adds a second stream: every operator-rule application '
-        'inside random whole proofs is re-checked with the same oracle.')
+        'context); each is distinct and non-trivial. Second stream (both tiers): every operator-rule application '
+        'inside Hypothesis-generated whole proofs (compound components) is re-checked with the same oracle.')
 ASSUMPTIONS = [
     'reference semantics vf/refsem.py (tables decided by C07)',
     'modal operator rules are checked against K semantics of the base logic (frame conditions are the frame rules\' job and are checked separately)',
@@ -464,9 +464,63 @@ def _missing_kind(frame, worlds, acc, got, missing):
 
 # ----------------------------------------------------------------------------- campaign
 
+def run_inproof(shard, acc):
+    """Second stream: every operator-rule application inside random whole proofs, compound components included,
+    re-checked locally with the same oracle (vf/attrib.py)."""
+    from hypothesis import HealthCheck, Phase, given, seed, settings
+    from hypothesis import strategies as st
+    from .. import gen, prover
+    from ..attrib import entry_triples, impl_name as _impl, step_exact
+    prof = gen.Profile(w_atom=5, w_pred=2, w_ident=1, w_neg=4, w_assert=2, w_bin=10, w_modal=2, w_quant=2, max_depth=4)
+
+    @seed(shard['seed'] * 1000 + shard['shard'])
+    @settings(max_examples=shard['examples'], database=None, deadline=None, report_multiple_bugs=False,
+              phases=[Phase.generate], suppress_health_check=list(HealthCheck))
+    @given(st.data())
+    def body(data):
+        logic = data.draw(gen.logic_name())
+        prem, con = data.draw(gen.argument(prof.for_logic(logic), 2))
+        case = prover.mk_case(logic, prem, con, order=data.draw(st.integers(0, 3)), max_steps=120)
+        res, n = check_inproof(case)
+        acc.case(('inproof', logic, case['premises'], case['conclusion']), nontrivial=n > 0, classes=('in-proof',),
+                 sample=prover.case_str(case) + f' ({n} operator-rule applications re-checked)')
+        acc.extra['inproof_steps'] = acc.extra.get('inproof_steps', 0) + n
+        for fp, d in res:
+            acc.finding(fp, dict(kind='inproof', **case), d)
+    body()
+
+
+def check_inproof(case):
+    from .. import prover
+    from ..attrib import entry_triples, impl_name as _impl, step_exact
+    logic, prem, con = prover.case_args(case)
+    try:
+        tab = prover.build(logic, prem, con, order=case.get('order', 0), max_steps=case.get('max_steps', 120))
+    except Exception:
+        return [], 0
+    out = []
+    n = 0
+    seen = set()
+    for entry in tab.history:
+        tr = entry_triples(entry)
+        if tr is None:
+            continue
+        n += 1
+        bad = step_exact(logic, *tr)
+        if bad is not None:
+            impl, rname = _impl(entry.rule)
+            fp = f'C04|in-proof|{bad["kind"]}|{fam(logic)}|rule:{impl}/{rname}'
+            if fp not in seen:
+                seen.add(fp)
+                node = tr[0]
+                out.append((fp, f'{prover.case_str(case)}: {rname} applied to {A.show(node[0])}{_dmark(node[1])}: {bad}'))
+    return out, n
+
+
 def shards(tier, seed):
     names = sorted(R.LOGICS)
     out = [dict(kind='shapes', logics=names[i::16]) for i in range(16)]
+    out += [dict(kind='inproof', seed=seed, shard=i, examples=150 if tier == 'quick' else 2000) for i in range(8 if tier == 'quick' else 32)]
     for name in names:
         if R.frame_of(name) in FRAME_RULES:
             out.append(dict(kind='frame', logic=name, nworlds=3 if (tier == 'thorough' or R.base_of(name) in ('CFOL', 'FDE')) else 2))
@@ -488,6 +542,8 @@ def sh_json(sh):
 
 
 def run_shard(shard, acc):
+    if shard['kind'] == 'inproof':
+        return run_inproof(shard, acc)
     if shard['kind'] == 'shapes':
         for name in shard['logics']:
             shown = set()
@@ -525,6 +581,8 @@ def run_shard(shard, acc):
 
 
 def replay(case):
+    if case['kind'] == 'inproof':
+        return check_inproof(case)[0]
     if case['kind'] == 'shape':
         sh = dict(case['shape'])
         sh['sentence'] = A.from_json(sh['sentence'])
